@@ -56,8 +56,19 @@ Inductive item : Type :=
 | IARound (comments : list string) (a : array string)
 | IPickle (s : spectrum string)
           (args : array string * array bool * bool * option (list string) * option string)
-          (res : option (spectrum string)).
+          (res : option (spectrum string))
     (* Spectrum_pickler's argument tuple and Spectrum_unpickler's result as the implementation produced them *)
+| IWriteV (comments : list string) (foldmaskinfo : bool) (dv : view string) (mv : view bool)
+          (s : spectrum string) (text : string).
+    (* a spectrum held in memory as the two strided views [dv] (data tokens) and [mv] (mask): both views lie inside
+       their blocks, their logical content computed by the model from block, offset and strides ([v_ravel]) is the
+       spectrum [s] numpy reported (ravel), and the model's to_file of that logical content is [text]
+       (the file the implementation wrote for this very object) *)
+
+(** memory cells that belong to no entry of the view (gaps of a stepped slice) *)
+Definition FILL : string := "<no-entry>".
+(** a memory block given by cell -> position of its token in a token list (cells outside the list: FILL) *)
+Definition sel (l : list string) (idxs : list N) : list string := map (fun i => nth (N.to_nat i) l FILL) idxs.
 
 Definition args_eqb (a b : array string * array bool * bool * option (list string) * option string) : bool :=
   let '(d1, m1, f1, l1, e1) := a in
@@ -83,6 +94,10 @@ Definition item_ok (it : item) : bool :=
       args_eqb (spectrum_pickler s) args
       && opt_eqb spec_eqb (spectrum_unpickler args) res
       && opt_eqb spec_eqb (spectrum_unpickler (spectrum_pickler s)) (Some s)
+  | IWriteV cs fmi dv mv s text =>
+      let s' := spectrum_of_views FILL dv mv (sp_folded s) (sp_labels s) (sp_extrap s) in
+      v_inbounds dv && v_inbounds mv && list_eqb Nat.eqb (v_shape dv) (v_shape mv)
+      && spec_eqb s' s && String.eqb (to_file idfmt 0 cs fmi s') text
   end.
 
 (** a case = tagged items (tag k < 60); result = (all ok, sum of 2^k over the failing items) *)
